@@ -307,12 +307,13 @@ func newOut(dir string) *Out {
 }
 
 func (o *Out) Line(script, impl string) {
+	progress.Add(1)
 	fmt.Fprintln(o.script, script)
 	fmt.Fprintln(o.impl, "I "+impl)
 	o.lines++
 }
 
-func (o *Out) Count(k string) { o.stats[k]++ }
+func (o *Out) Count(k string) { progress.Add(1); o.stats[k]++ }
 
 // Hash tells the model the digest of (code, data) for hash functions the driver does not implement.
 func (o *Out) Hash(code uint64, data []byte) {
